@@ -15,7 +15,15 @@
 //      lengths are consistent, field counts and NULL markers are preserved, untransformed
 //      fields keep their exact bytes, transformed fields carry exactly the plaintext;
 //  (3) codec round trips, exhaustively over all strings up to length 4 over an alphabet, for
-//      the bytea text codecs used when rewriting.
+//      the bytea text codecs used when rewriting;
+//  (4) pipelined extended-protocol batches (pipeline.go): k = 1..3 Bind/Execute pairs before one
+//      Sync, every assignment of result formats to the Binds (none / text / binary / per column
+//      mixed), unnamed and named portals (per pair, closed and bound again, all Binds before the
+//      Executes in both orders), one statement or a statement per pair (named / unnamed parsed
+//      again), with and without Describe(portal), over select lists of not configured, encrypted
+//      and type-aware (int32 / str / bytes / int32 with default value) columns: the oracle of (2)
+//      per result set of the batch, in the format that the Bind of that result set asked for,
+//      and byte identity of the request.
 package main
 
 import (
@@ -151,7 +159,7 @@ func main() {
 	defer os.RemoveAll(dir)
 	ks := fx.NewKeyStoreV1(dir, -1)
 	fx.GenClientKeys(ks, fx.Alpha)
-	env, err := sess.NewPGEnv(ks, sess.PGEnvOptions{EncryptorConfigYAML: schemaYAML})
+	env, err := sess.NewPGEnv(ks, sess.PGEnvOptions{EncryptorConfigYAML: schemaYAML + pipeSchemaYAML})
 	if err != nil {
 		ev.Fatalf("env: %v", err)
 	}
@@ -248,9 +256,16 @@ func main() {
 		}
 		var rp relayReplay
 		r.LoadReplay(&rp)
-		if rp.Part == "relay" {
+		switch rp.Part {
+		case "relay":
 			runRelay(rp)
-		} else {
+		case "pipeline":
+			var pc pipeCase
+			r.LoadReplay(&pc)
+			pipelinePart(r, env, thorough, &pc)
+		case "pipeline-all": // developer shortcut: {"replay":{"part":"pipeline-all"}} runs the pipeline part alone
+			pipelinePart(r, env, thorough, nil)
+		default:
 			rewritePart(r, env, thorough)
 		}
 		os.RemoveAll(dir)
@@ -307,15 +322,18 @@ func main() {
 	// ---- part 2: rewritten messages -------------------------------------------------------
 	rewritePart(r, env, thorough)
 
+	// ---- part 4 (pipeline.go): pipelined extended-protocol batches --------------------------------
+	pipelinePart(r, env, thorough, nil)
+
 	// ---- part 3: codec round trips ----------------------------------------------------------
 	codecPart(r, thorough)
 
 	// ---- MySQL half (mysql.go); last, because it switches the process-wide SQL dialect ----------
 	mysqlPart(r, ks, thorough)
 
-	r.Rule("relay: state = one session (sequence of frontend message groups, each answered by a scripted backend answer); oracle = byte identity of both directed streams; rewrite: rows / binds with <= 4 columns over {NULL, empty, short, protected value, 64 KiB} shapes through a configured table; codecs: all strings over the alphabet up to length 4; distinct_nontrivial = distinct (part, groups/answers or shape, outcome)")
+	r.Rule("relay: state = one session (sequence of frontend message groups, each answered by a scripted backend answer); oracle = byte identity of both directed streams; rewrite: rows / binds with <= 4 columns over {NULL, empty, short, protected value, 64 KiB} shapes through a configured table; codecs: all strings over the alphabet up to length 4; pipeline: state = one session that writes a whole batch (k = 1..3 Bind/Execute pairs before one Sync) x every assignment of result-format codes {none, [0], [1], per column mixed} to the Binds x portals {unnamed, named per pair, one named closed and bound again, Binds first then Executes in order / reversed} x statements {one named, one unnamed, named per pair, unnamed parsed again per pair} x {no Describe, Describe(portal) per pair} x select-list rotations over not configured / encrypted / int32 / str / bytes / int32-with-default columns, rows with and without NULLs; the reference database answers after the whole batch arrived; oracle per result set = rewrite oracle in the format the Bind of that result set asked for + byte identity of the request and of all other answers; distinct_nontrivial = distinct (part, groups/answers or shape, outcome)")
 	os.RemoveAll(dir) // Finish exits: the deferred removal would not run
-	r.Assume("PostgreSQL: independent codec = jackc/pgx pgproto3", "lock-step delivery with Flush / NoticeResponse barriers, which are relayed messages themselves", "Themis stand-in")
+	r.Assume("PostgreSQL: independent codec = jackc/pgx pgproto3", "lock-step delivery with Flush / NoticeResponse barriers, which are relayed messages themselves", "Themis stand-in", "pipeline: the database answers only after the whole batch up to Sync reached it (the order in which a pipelining driver and a server interleave is one of several; this one maximises what the proxy has seen before the first answer); re-binding a named portal only after Close, re-parsing only the unnamed statement, no Binds-first orders over a re-parsed unnamed statement (protocol validity); type OID announced in a RowDescription of a type-aware column may be either the stored or the configured type")
 	r.Finish()
 }
 
